@@ -1,5 +1,6 @@
 import Gmx.Model.ConfigAccess
 import Gmx.Model.PoolOps
+import Gmx.Gen.Layout
 import Gmx.Driver.Util
 import Gmx.Driver.C16
 -- ENGINE c40 Tbl.c40Engine stateless
@@ -7,7 +8,7 @@ import Gmx.Driver.C16
 SDK source) for a market whose keys hold sentinels, and the SDK `Pool` operations. -/
 namespace Gmx.Drv.Tbl
 open Gmx.Drv
-open Gmx.Gen.MarketConfig Gmx.Gen.Pools Gmx.Gen.Wiring Gmx.ConfigAccess Gmx.PoolOps
+open Gmx.Gen.MarketConfig Gmx.Gen.Pools Gmx.Gen.Wiring Gmx.ConfigAccess Gmx.PoolOps Gmx.Gen.Layout
 
 def showPool : Option RawPool → String
   | some p => s!"ok {showBool p.pure} {p.long} {p.short}"
@@ -53,7 +54,21 @@ def c40Engine (args : List String) : String :=
       if side = "sdk" then poolOp true ⟨pure, l, s⟩ op a b
       else if side = "prog" then poolOp false ⟨pure, l, s⟩ op a b else "bad-op"
     | _, _, _ => "bad-op"
+  | ["layout", "size", t] =>
+    match layouts.find? (fun x => x.name == t) with
+    | some x => s!"ok {x.size16} {x.size16}"
+    | none => "notype"
+  | ["layout", "key", k] =>
+    match (Key.ofSnake? k).bind getField with
+    | some f => s!"ok {8 + marketConfigOffset + configFieldOffset f} 16"
+    | none => "nokey"
+  | ["layout", "flag", x] =>
+    match Flag.ofSnake? x with
+    | some x => s!"ok {8 + marketConfigOffset + configFlagOffset + x.bit / 8} {2 ^ (x.bit % 8)}"
+    | none => "noflag"
   | ["randbytes", _] => "same"
+  -- actions are compared program-vs-SDK inside the harness (`actions_congruent` is why equality is expected)
+  | ["action", _] => "same"
   | ["poolkind", k] =>
     match Kind.ofName? k with
     | some k => match sdkPoolGet k with | some f => s!"ok {f.name}" | none => "nopool"
